@@ -48,7 +48,9 @@ def gen_hierarchy(rng):
             enw = rng.choice(ens)
         # distinct drivers are distinct domains whatever they are called: half of them share one name (the reusable
         # sub-block that creates its own ClockDriver('gclk', ...) and is instantiated several times)
-        drv = py4hw.ClockDriver(rng.choice(['gclk', 'g%d' % k]), base=hw.clockDriver, enable=enw, wire=hw.wire('clk_g%d' % k))
+        # the base may be any driver created so far, gated or not: a domain follows ITS OWN enable (none = it always advances)
+        drv = py4hw.ClockDriver(rng.choice(['gclk', 'g%d' % k]), base=rng.choice([d_['drv'] for d_ in doms]), enable=enw,
+                                wire=hw.wire('clk_g%d' % k))
         doms.append({'drv': drv, 'enw': enw})
         return k
 
